@@ -6,9 +6,11 @@ import sys
 import tempfile
 import threading
 
+from vt import sysx
+
 ID = 'C28'
 ENGINE = 'seq'
-TECHNIQUE = 'runtime monitoring: grammar-generated statements executed as real source lines; lock-availability probe from a second thread'
+TECHNIQUE = 'runtime monitoring: grammar-generated statements executed as real source lines with a lock-availability probe from a second thread; concurrent cases under a deterministic cooperative scheduler (opcode-level yield points) with a lock-ownership monitor after every finished statement, partly enumerated systematically (delay-bounded)'
 RULE = ('statements generated from a grammar (reads inside arithmetic, every comparison operator, boolean expressions, call and keyword '
         'arguments, subscripts, f-strings, conditional expressions, comprehensions, walrus, lambda, assert, return, if/while/for headers; '
         'augmented assignment of every operator to OTHER names / subscripts / attributes with the attribute on the right; plain, tuple and '
@@ -21,11 +23,11 @@ RULE = ('statements generated from a grammar (reads inside arithmetic, every com
         'at every bytecode boundary of miros/thread_safe_attributes.py and of the statements; whenever a thread has finished one of its '
         'statements it must not own the lock of either attribute, whatever the other threads did meanwhile. '
         'distinct_nontrivial = distinct AST shapes (ast.dump of the statement with constants abstracted), and distinct context-switch '
-        'sequences of the concurrent runs')
+        'sequences of the concurrent runs. ' + sysx.RULE_TEXT % (1, 2))
 CASES = {'quick': 400, 'thorough': 20000}
-BUDGET = {'quick': 150, 'thorough': 300}
+BUDGET = {'quick': 150, 'thorough': 600}
 REQUIRE = {'statements': 4000, 'probes': 8000, 'plain_reads_ok': 100, 'self_augassign_ok': 100, 'concurrent_runs': 200,
-           'concurrent_statements_checked': 300, 'concurrent_switch_between_get_and_set': 40}
+           'concurrent_statements_checked': 300, 'concurrent_switch_between_get_and_set': 40, 'systematic_schedules': 500, 'systematic_scenarios_exhausted': 2}
 ANNOUNCE_CASES = True
 ASSUME = ['one generated statement per function; the probe reads the descriptor\'s lock object (falls back to a timed read when the attribute layout changes)']
 
@@ -205,14 +207,18 @@ def conc_worker(o, plan, out, held):
       held.append((k, op, name, getattr(lock, 'owner', None) is me, getattr(lock, 'count', 0)))
 
 
+SYS = {'quick': (8, 1, 3000, 60.0), 'thorough': (32, 2, 100000, 150.0)}
+
+
 def concurrent_case(ctx, n):
   import miros.thread_safe_attributes as TSA
   from vt import detsched as ds, wl_c27
   rng = ctx.rng('conc', n)
+  small = getattr(ctx, 'small', False)
   plans = []
-  for t in range(rng.randint(2, 4)):
+  for t in range(2 if small else rng.randint(2, 4)):
     plan = []
-    for _ in range(rng.randint(1, 3)):
+    for _ in range(1 if small else rng.randint(1, 3)):
       op = rng.choice(['+=', '+=', '-=', '*=', '=', 'read', 'read', 'b+='])
       plan.append((op, {'+=': rng.randint(1, 9), '-=': rng.randint(1, 9), '*=': 2, '=': rng.randint(10, 99), 'read': None, 'b+=': rng.randint(1, 9)}[op]))
     plans.append(plan)
@@ -260,6 +266,10 @@ def concurrent_case(ctx, n):
 
 def run_case(ctx, n):
   if n % 4 == 3:
+    if n < 4 * SYS[ctx.tier][0]:
+      # systematic: every schedule of a 2-thread scenario within the deviation bound (vt/sysx.py)
+      sysx.explore(ctx, n * 3, concurrent_case, *SYS[ctx.tier][1:])
+      return
     for sub in range(3):
       concurrent_case(ctx, n * 3 + sub)
     return
